@@ -107,8 +107,8 @@ def run(model, rep, tier):
     # ---------------------------------------------------------------- R-16.3
     rc = model.func("dns.message.QueryMessage.resolve_chaining")
     cfg = CFG(rc.node, implicit_exc=False)
-    loops = [n for n in cfg.nodes if n.kind == "test" and isinstance(n.ast, ast.While) and len(atoms(normalise_compare(n.ast.test))) == 1 and atoms(normalise_compare(n.ast.test))[0][:2] == ("MAX_CHAIN", ">")]
-    CNT = atoms(normalise_compare(loops[0].ast.test))[0][2] if len(loops) == 1 else "?"
+    loops = [n for n in cfg.nodes if n.kind == "test" and isinstance(n.ast, ast.While) and len(atoms(normalise_compare(n.ast.test))) == 1 and atoms(normalise_compare(n.ast.test))[0][1:] == ("<", "MAX_CHAIN")]
+    CNT = atoms(normalise_compare(loops[0].ast.test))[0][0] if len(loops) == 1 else "?"
     if len(loops) != 1:
         rep.blind("R-16.3", rc.qualname, where(rc, rc.node), "chain loop `while count < MAX_CHAIN` not found", stmt="chain-loop")
     else:
